@@ -36,7 +36,8 @@ Status on the current tree (`pinned` = two known execution-only sites):
  * `less_total`, `sort_total`, `threshold_total`: the two round-3 repairs are sufficient for all inputs.
  * `gasPrice_nonzero_all_histories` + `admitted_vote_candidates_validated`: the invariant the fee divisions rely on,
    over all histories of admitted votes.
- * tie T: `every_open_op_accounted`, `every_site_anchored`, `dispatch_known`, `auto_rules_known`.
+ * tie T: `every_open_op_accounted`, `every_site_anchored`, `dispatch_known`, `auto_rules_known`, `conf_codec_known`
+   (+ `serializeConf_nonempty`: the decoder's `data[0]` is guarded by what the only writer can store).
 -/
 import Aergo.Lemmas.Admit
 import Aergo.Lemmas.AdmitReach
@@ -68,6 +69,16 @@ set_option maxRecDepth 100000 in
 exactly the case labels the model branches on: a new command or type is noticed before any payload is found. -/
 theorem dispatch_known : Aergo.Gen.PartialOps.dispatch = knownDispatch := by rfl
 
+/-- The functions that write and read an enterprise configuration record are, statement by statement, the ones
+`serConf` / `confRead` transcribe (`serializeConf` has a single `return ret` after appending the on/off byte;
+`getConf` guards `deserializeConf` with `data == nil` only; `setConf` stores `serializeConf`'s result). -/
+theorem conf_codec_known : Aergo.Gen.PartialOps.shapes = knownShapes := by rfl
+
+/-- What `setConf` stores is never empty — so the empty record that would make `deserializeConf`'s `data[0]` panic
+(site `cDeser0`; what `SetData(key, nil)` leaves behind after a commit) cannot be written: `ConfRecOk` is an invariant. -/
+theorem serializeConf_nonempty (c : Conf) : 1 ≤ (serConf c).length := by
+  simp [serConf]
+
 /-- `allSites` lists every constructor of `Site`. -/
 theorem allSites_complete (s : Site) : s ∈ allSites := by cases s <;> decide
 
@@ -90,7 +101,8 @@ theorem pinned_are_sites : pinned.all (fun s => allSites.contains s) = true := b
    broken by an admitted transaction on the current tree (known finding), so the pinned-tree theorems do not use it;
  * `daoVotes` — the sender's old parameter-vote record names a candidate (`rSyncTop` on unstake);
  * `gas`      — the voted gas price is not zero (`fCalcGas`; `gasPrice_nonzero_all_histories`);
- * `fd`       — the chain service answers fee-delegation requests with its typed reply or not at all (`pFdRsp`). -/
+ * `fd`       — the chain service answers fee-delegation requests with its typed reply or not at all (`pFdRsp`);
+ * `conf`     — no enterprise configuration record is stored empty (`cDeser0`; `serializeConf_nonempty` + `conf_codec_known`). -/
 structure StateOk (e : Env) : Prop where
   admins : e.adminsReadable = true
   votes : OldVotesOk e
@@ -99,6 +111,7 @@ structure StateOk (e : Env) : Prop where
   cap : CapOk e
   gas : GasPriceOk e
   fd : FdReplyOk e
+  conf : ConfRecOk e
 
 /-! ### General form -/
 
@@ -106,9 +119,9 @@ structure StateOk (e : Env) : Prop where
 stateful governance validation) of any transaction of any type panics only at a site whose guard is missing. -/
 theorem admit_panics_only_at_unguarded (u : List Site) (e : Env)
     (hA : .gAdmins ∈ u ∨ e.adminsReadable = true) (hR : RpcOk e)
-    (hG : .fCalcGas ∈ u ∨ GasPriceOk e) (hF : .pFdRsp ∈ u ∨ FdReplyOk e) (s : Site) :
+    (hG : .fCalcGas ∈ u ∨ GasPriceOk e) (hF : .pFdRsp ∈ u ∨ FdReplyOk e) (hK : .cDeser0 ∈ u ∨ ConfRecOk e) (s : Site) :
     poolAdmit u e = .panic s → s ∈ u :=
-  safe_poolAdmit u e hA hR hG hF s
+  safe_poolAdmit u e hA hR hG hF hK s
 
 /-- Whatever the guards, pool admission only ever traps at an admission site: the execution-only traps do not occur in it. -/
 theorem admit_reaches_only_admission_sites (u : List Site) (e : Env) (s : Site) :
@@ -118,18 +131,19 @@ theorem admit_reaches_only_admission_sites (u : List Site) (e : Env) (s : Site) 
 /-- Block execution of any transaction (admitted or not) panics only at a site whose guard is missing. -/
 theorem execute_panics_only_at_unguarded (u : List Site) (e : Env)
     (hA : .gAdmins ∈ u ∨ e.adminsReadable = true) (hR : RpcOk e) (hV : .rSubNil ∈ u ∨ OldVotesOk e)
-    (hD : .rSyncTop ∈ u ∨ OldDaoVotesOk e) (hC : CapOk e) (hG : .fCalcGas ∈ u ∨ GasPriceOk e) (s : Site) :
+    (hD : .rSyncTop ∈ u ∨ OldDaoVotesOk e) (hC : CapOk e) (hG : .fCalcGas ∈ u ∨ GasPriceOk e)
+    (hK : .cDeser0 ∈ u ∨ ConfRecOk e) (s : Site) :
     execute u e = .panic s → s ∈ u :=
-  safe_execute u e hA hR hV hD hC hG s
+  safe_execute u e hA hR hV hD hC hG hK s
 
 /-! ### The current tree (`pinned` = the two known execution sites) -/
 
 /-- FULL STRENGTH, first clause of C14: on the current tree pool admission of any transaction — any type, any
 payload bytes, any field contents, any sender state, any non-zero gas price — never panics. -/
 theorem validate_total (e : Env) (hA : e.adminsReadable = true) (hR : RpcOk e) (hG : GasPriceOk e) (hF : FdReplyOk e)
-    (s : Site) : poolAdmit pinned e ≠ .panic s := by
+    (hK : ConfRecOk e) (s : Site) : poolAdmit pinned e ≠ .panic s := by
   intro hp
-  have h1 := admit_panics_only_at_unguarded pinned e (.inr hA) hR (.inr hG) (.inr hF) s hp
+  have h1 := admit_panics_only_at_unguarded pinned e (.inr hA) hR (.inr hG) (.inr hF) (.inr hK) s hp
   have h2 := admit_reaches_only_admission_sites pinned e s hp
   simp only [pinned, List.mem_cons, List.not_mem_nil, or_false] at h1
   rcases h1 with h1 | h1 <;> subst h1 <;> exact absurd h2 (by decide)
@@ -141,8 +155,8 @@ theorem validate_total (e : Env) (hA : e.adminsReadable = true) (hR : RpcOk e) (
 /-- PARTIAL, second clause: executing any transaction (in particular any admitted one) panics at most
 at one of the two known sites.  `OldVotesOk` is *not* assumed (it is what `rSubNil` is about). -/
 theorem execute_total_partial (e : Env) (hA : e.adminsReadable = true) (hR : RpcOk e) (hD : OldDaoVotesOk e) (hC : CapOk e)
-    (hG : GasPriceOk e) (s : Site) (h : execute pinned e = .panic s) : s = .rAddSlice ∨ s = .rSubNil := by
-  have := execute_panics_only_at_unguarded pinned e (.inr hA) hR (.inl (by decide)) (.inr hD) hC (.inr hG) s h
+    (hG : GasPriceOk e) (hK : ConfRecOk e) (s : Site) (h : execute pinned e = .panic s) : s = .rAddSlice ∨ s = .rSubNil := by
+  have := execute_panics_only_at_unguarded pinned e (.inr hA) hR (.inl (by decide)) (.inr hD) hC (.inr hG) (.inr hK) s h
   simpa [pinned] using this
 
 /-- FULL, second clause for every type but GOVERNANCE (NORMAL, TRANSFER, CALL, DEPLOY, REDEPLOY, MULTICALL,
@@ -172,13 +186,13 @@ theorem execute_total_other_types (e : Env) (ht : e.tx.type ≠ 1) (hG : GasPric
 transaction never panics: the full second clause. -/
 theorem execute_total_repaired (e : Env) (h : StateOk e) (s : Site) : execute [] e ≠ .panic s := by
   intro hp
-  have := execute_panics_only_at_unguarded [] e (.inr h.admins) h.rpc (.inr h.votes) (.inr h.daoVotes) h.cap (.inr h.gas) s hp
+  have := execute_panics_only_at_unguarded [] e (.inr h.admins) h.rpc (.inr h.votes) (.inr h.daoVotes) h.cap (.inr h.gas) (.inr h.conf) s hp
   cases this
 
 /-- … and admission stays total with that guard. -/
 theorem validate_total_repaired (e : Env) (h : StateOk e) (s : Site) : poolAdmit [] e ≠ .panic s := by
   intro hp
-  have := admit_panics_only_at_unguarded [] e (.inr h.admins) h.rpc (.inr h.gas) (.inr h.fd) s hp
+  have := admit_panics_only_at_unguarded [] e (.inr h.admins) h.rpc (.inr h.gas) (.inr h.fd) (.inr h.conf) s hp
   cases this
 
 /-! ### The round-3 repairs are sufficient for all inputs -/
@@ -371,6 +385,12 @@ example : poolAdmit pinned (wXfer 0) = .panic .fCalcGas ∧ poolAdmit pinned (wX
     ∧ poolAdmit pinned wFd = .panic .pFdRsp ∧ poolAdmit pinned { wFd with fdReply := .refused } = .reject .fd := by
   decide +kernel
 
+/-- test: the stored-record hypothesis is needed — were an empty record stored (what seeded change C14-r3-2 makes
+`setConf` do for a switched-off conf without values), every later transaction on that key would panic in admission. -/
+def wEmptyRec : Env := { wEnv aergoEnterprise (str% "{\"Name\":\"enableConf\",\"Args\":[\"p2pblack\",true]}") 0 with
+  confKeyEmpty := true, admins := [List.replicate 33 2], adminsEnc := [str% "AmX"], senderInAdmins := true }
+example : poolAdmit pinned wEmptyRec = .panic .cDeser0 := by decide +kernel
+
 /-- The second clause is false on the current tree: `w6` (a healthy state) is admitted and its
 execution panics. -/
 theorem execute_total_violated :
@@ -421,6 +441,7 @@ example : StateOk wOk where
     decide
   gas := by unfold GasPriceOk; decide
   fd := by unfold FdReplyOk; decide
+  conf := ⟨rfl, rfl⟩
 
 /-- … and there the model accepts and executes the transaction (the theorems are not about an empty set). -/
 example : poolAdmit pinned wOk = .ok () ∧ execute pinned wOk = .ok () ∧ poolAdmit [] wOk = .ok () := by decide +kernel
